@@ -25,6 +25,7 @@ pull *exact source spans* out of /repo on every run and splice contracts / ghost
                                                  insensitive, must match exactly one arm) keeps its pattern but its
                                                  body is replaced by <expr> — normally a call of an uninterpreted
                                                  `external_body` function: the arm's code is NOT verified
+  //@@   cutfirst                                the cutarm directives of this function are applied before its rules (default: after)
   //@@   insert before|after [#k] `<anchor>` :: <ghost text>
   //@@   insert before|after [#k] `<anchor>` <<  (multi-line ghost text until `//@@   >>`)
   //@@   contract                                lines up to `//@@   endcontract` go between signature and body
@@ -852,6 +853,7 @@ class FnUnit:
         self.rename = self.selftype = self.vis = self.ret = None
         self.rules, self.replaces, self.inserts, self.contract = [], [], [], []
         self.cutarms = []
+        self.cutfirst = False
         self.splitarms = []
         self.block = False
         self.from_ = self.to = self.wrap = self.tail = None
@@ -940,6 +942,8 @@ def parse_template(text):
                     if not mm:
                         raise TemplateError(f"bad splitarm: {rest}")
                     fu.splitarms.append((int(mm.group(1)) if mm.group(1) else None, mm.group(2)))
+                elif key == "cutfirst":
+                    fu.cutfirst = True
                 elif key == "cutarm":
                     mm = re.match(r"(?:#(\d+)\s+)?`(.*)`\s*=>\s*`(.*)`$", rest)
                     if not mm:
@@ -1066,14 +1070,19 @@ def build(template_path, repo_root):
             for ordinal, pattern in fu.splitarms:
                 body, applied = split_arm(body, pattern, ordinal)
                 drops += applied
+            if fu.cutfirst:          # the cut arms contain constructs the textual rules would refuse (fail closed): cut them before the rules run
+                for ordinal, pattern, expr in fu.cutarms:
+                    body, applied = cut_arm(body, pattern, expr, ordinal)
+                    drops += applied
             for r in fu.rules:
                 if r not in RULES:
                     raise TemplateError(f"unknown rule {r}")
                 body, applied = RULES[r](body)
                 drops += applied
-            for ordinal, pattern, expr in fu.cutarms:
-                body, applied = cut_arm(body, pattern, expr, ordinal)
-                drops += applied
+            if not fu.cutfirst:
+                for ordinal, pattern, expr in fu.cutarms:
+                    body, applied = cut_arm(body, pattern, expr, ordinal)
+                    drops += applied
             whole = sig + body
             for rule, old, new, every in fu.replaces:
                 hits = find_all(whole, old)
